@@ -1125,16 +1125,20 @@ std::size_t Preprocessor::calculateHash(const std::string &toolinfo) const
     for (const simplecpp::Token *tok = mTokens.cfront(); tok; tok = tok->next) {
         if (!tok->comment) {
             hashData += tok->str();
-            hashData += static_cast<char>(tok->location.line);
-            hashData += static_cast<char>(tok->location.col);
+            hashData += std::to_string(tok->location.line);
+            hashData += ':';
+            hashData += std::to_string(tok->location.col);
+            hashData += ';';
         }
     }
     for (const auto &filedata : mFileCache) {
         for (const simplecpp::Token *tok = filedata->tokens.cfront(); tok; tok = tok->next) {
             if (!tok->comment) {
                 hashData += tok->str();
-                hashData += static_cast<char>(tok->location.line);
-                hashData += static_cast<char>(tok->location.col);
+                hashData += std::to_string(tok->location.line);
+                hashData += ':';
+                hashData += std::to_string(tok->location.col);
+                hashData += ';';
             }
         }
     }
